@@ -94,6 +94,33 @@ func genSeq(r *rng.R, id int) seqCase {
 
 func resName(id, res int) string { return "c04-" + strconv.Itoa(id) + "-" + strconv.Itoa(res) }
 
+var gclk *vclock.Clock
+
+// stepClock moves the virtual clock before operation i of case id: mostly forwards (0..2 s),
+// occasionally backwards by up to 50 ms (a wall clock stepped by NTP).  Isolation decisions and
+// the gauge do not depend on time, so the model ignores these moves; the observations must not change.
+func stepClock(id, i int) {
+	if gclk == nil {
+		return
+	}
+	h := uint64(id)*2654435761 + uint64(i)*40503 + 12345
+	h ^= h >> 13
+	h *= 0x9E3779B97F4A7C15
+	h ^= h >> 29
+	now := gclk.CurrentTimeMillis()
+	switch h % 8 {
+	case 0, 1, 2:
+	case 3, 4:
+		gclk.SetMs(now + (h>>8)%7)
+	case 5:
+		gclk.SetMs(now + 400 + (h>>8)%1700)
+	case 6:
+		gclk.SetMs(now + 12000)
+	case 7:
+		gclk.SetMs(now - 1 - (h>>8)%50)
+	}
+}
+
 // runSeq executes the case on the implementation.
 func runSeq(c seqCase) (obs []obsT, gauges []int64) {
 	var rules []*isolation.Rule
@@ -107,6 +134,7 @@ func runSeq(c seqCase) (obs []obsT, gauges []int64) {
 	}
 	entries := make([]*base.SentinelEntry, len(c.Ops))
 	for i, o := range c.Ops {
+		stepClock(c.ID, i)
 		switch o.Kind {
 		case "enter":
 			e, b := sentinel.Entry(resName(c.ID, o.Res), sentinel.WithBatchCount(o.Batch))
@@ -404,6 +432,7 @@ func main() {
 	env.Init(env.Options{})
 	clk := vclock.New(1700000000000)
 	clk.Install()
+	gclk = clk
 	root := rng.New(a.Seed)
 	rep := emit.NewReport("C04", a.Seed, a.Tier)
 	rep.Rule = "sequential: 1-3 resources x 1-3 isolation rules, 8-47 Entry/Exit ops (batches 0,1,2,N,N+1,2^32-1,2^32-2; exits out of order, repeated, of blocked ops); concurrent: k=2-4 goroutines parked at the chain yield between rule check and statistics, random interleavings with releases. Non-trivial = the history contains at least one admission and one rejection (sequential) / at least two requests simultaneously inside the admission path (concurrent); distinct by full input."
